@@ -507,6 +507,9 @@ class LogJudge:
                 self.v("d2-committed-command-never-sent-in-accept", f"{x.name} slot {i}: {short(cmd)}")
             elif not sent:
                 pass        # replicated under a foreign ballot only: reported as p0
+            elif len(acks) + 1 < self.q2:
+                self.v("d1-committed-below-quorum",
+                       f"{x.name} committed slot {i} after {len(acks)} Accepted from {sorted({str(a[0]) for a in acks})} + self, Q2={self.q2}")
             elif len({a[0] for a in acks if a[0] != x.name}) + 1 < self.q2:
                 self.v("d1-same-acceptor-counted-twice",
                        f"{x.name} committed slot {i} after {len(acks)} Accepted from {sorted({str(a[0]) for a in acks})} + self, Q2={self.q2}")
@@ -814,11 +817,11 @@ def election_strategy(safe):
         return st.fixed_dictionaries({
             "n": st.sampled_from([3, 4, 5]),
             "strategy": st.sampled_from([0, 1, 2]),
-            "net": net_strategy(tier, maxd=120, horizon=1200),
+            "net": net_strategy(tier, maxd=120, horizon=900),
             "timeout": st.sampled_from([48, 96, 200]),
             "hb": st.sampled_from([12, 40]),
             "starts": st.lists(st.one_of(st.integers(0, 3), st.integers(0, 300)), min_size=5, max_size=5),
-            "joins": st.just([]) if safe else st.lists(st.integers(1, 1200), max_size=2),
+            "joins": st.just([]) if safe else st.lists(st.integers(1, 900), max_size=2),
             "draws": st.lists(st.integers(0, 15), max_size=12),
         })
     return s
@@ -834,20 +837,21 @@ def run_election(case, obl):
     sname = STRATS[k]
     timeout = clampi(case.get("timeout"), 4, 2000) / 512
     hb = clampi(case.get("hb"), 2, 2000) / 512
-    joins = sorted(clampi(t, 1, END_TICKS - 1) for t in as_list(case.get("joins"))[:2])
+    EL_END = 1024
+    joins = sorted(clampi(t, 1, EL_END - 1) for t in as_list(case.get("joins"))[:2])
     joins = joins[:max(0, n - 3)]          # the initial cluster has at least 3 members
     n0 = n - len(joins)
     mkstrat = [es.BullyStrategy, es.RingStrategy, lambda: es.RandomizedStrategy(ballot_range=16)][k]
     cl = Cluster(case.get("net"), n, lambda i, name, net: le.LeaderElection(name, net, strategy=mkstrat(),
                                                                            election_timeout=timeout, heartbeat_interval=hb),
-                 END_TICKS)
+                 EL_END)
     nodes = cl.nodes
     for x in nodes[:n0]:
         for y in nodes[:n0]:
             x.add_member(y)
     starts = as_list(case.get("starts"))
     for i, x in enumerate(nodes[:n0]):
-        cl.at(clampi(field(starts, i), 0, END_TICKS - 1), "start", lambda ev, x=x: x.start(), daemon=True)
+        cl.at(clampi(field(starts, i), 0, EL_END - 1), "start", lambda ev, x=x: x.start(), daemon=True)
     joined = [0]
     for jx, t in enumerate(joins):
         new = nodes[n0 + jx]
@@ -1068,27 +1072,27 @@ RULE_LIVE = ("fault-free network, per-message delays 0-8 ticks from the case: (p
              "committed and applied in order at every node within 6 max-delays + 2 heartbeats; non-trivial = max delay >= 2 or k >= 2")
 
 OBLIGATIONS = [
-    Obligation("paxos", paxos_strategy, lambda c: run_paxos(c, "paxos"), {"quick": 2000, "thorough": 80000}, RULE_PAXOS),
-    Obligation("multi", log_strategy("multi"), lambda c: run_log(c, "multi", "multi"), {"quick": 1000, "thorough": 40000},
+    Obligation("paxos", paxos_strategy, lambda c: run_paxos(c, "paxos"), {"quick": 1800, "thorough": 80000}, RULE_PAXOS),
+    Obligation("multi", log_strategy("multi"), lambda c: run_log(c, "multi", "multi"), {"quick": 900, "thorough": 40000},
                RULE_LOG.format(v="MultiPaxosNode")),
-    Obligation("flexible", log_strategy("flexible"), lambda c: run_log(c, "flexible", "flexible"), {"quick": 1000, "thorough": 40000},
+    Obligation("flexible", log_strategy("flexible"), lambda c: run_log(c, "flexible", "flexible"), {"quick": 900, "thorough": 40000},
                RULE_LOG.format(v="FlexiblePaxosNode")),
     Obligation("multi-safe", log_safe_strategy("multi"), lambda c: run_log_safe(c, "multi-safe", "multi"),
                {"quick": 600, "thorough": 20000}, RULE_SAFE.format(v="multi")),
     Obligation("flexible-safe", log_safe_strategy("flexible"), lambda c: run_log_safe(c, "flexible-safe", "flexible"),
                {"quick": 600, "thorough": 20000}, RULE_SAFE.format(v="flexible")),
-    Obligation("liveness", liveness_strategy(False), lambda c: run_liveness(c, "liveness"), {"quick": 800, "thorough": 20000}, RULE_LIVE),
-    Obligation("liveness-safe", liveness_strategy(True), lambda c: run_liveness(c, "liveness-safe"), {"quick": 600, "thorough": 20000},
+    Obligation("liveness", liveness_strategy(False), lambda c: run_liveness(c, "liveness"), {"quick": 700, "thorough": 20000}, RULE_LIVE),
+    Obligation("liveness-safe", liveness_strategy(True), lambda c: run_liveness(c, "liveness-safe"), {"quick": 500, "thorough": 20000},
                RULE_LIVE + " — restricted to single-decree Paxos and Flexible Paxos with the submit()+replication call (the paths that "
                "are live on this tree), no exclusion"),
-    Obligation("election", election_strategy(False), lambda c: run_election(c, "election"), {"quick": 900, "thorough": 30000},
+    Obligation("election", election_strategy(False), lambda c: run_election(c, "election"), {"quick": 800, "thorough": 30000},
                "3-5 LeaderElection nodes x {Bully, Ring, Randomized(ballot_range=16)}, staggered start() instants, scripted delays 0-120 ticks, "
                "loss, partitions, 0-2 late joiners registered with add_member() on every node before they start, strategy draws from the "
                "case; judged after every event on (current_term, current_leader) of every node; non-trivial = >= 2 distinct (term, leader) "
                "pairs observed"),
     Obligation("election-safe", election_strategy(True), lambda c: run_election(c, "election-safe"), {"quick": 500, "thorough": 20000},
                "election obligation restricted to static membership (no add_member after construction), no exclusion"),
-    Obligation("lock", lock_strategy, lambda c: run_lock(c, "lock"), {"quick": 1500, "thorough": 60000},
+    Obligation("lock", lock_strategy, lambda c: run_lock(c, "lock"), {"quick": 1400, "thorough": 60000},
                "one DistributedLock (lease 3-400 ticks, max_waiters 0-2), 4 workers, 1-18 operations on 2 locks at generated instants: "
                "acquire (worker process waits on the future), try_acquire, release with the worker's last token, release with an arbitrary "
                "token, LockAcquireRequest / LockReleaseRequest events; lease-expiry events scheduled by the caller as in the repo's tests "
